@@ -59,9 +59,11 @@ type FuncContract struct {
 	Spec       *SpecFile
 	NoPanic    bool
 	Fresh      bool // results are freshly allocated objects
+	Reveals    []string
 }
 
 type SpecFunc struct {
+	Opaque bool
 	Name   string
 	Params []SParam
 	Ret    string
@@ -92,6 +94,7 @@ type Lemma struct {
 	Ensures  []*Clause
 	Split    *SplitSpec
 	Tags     []string
+	Reveals  []string
 	Spec     *SpecFile
 	File     string
 	Line     int
@@ -128,7 +131,7 @@ type Contracts struct {
 	Guards      []*GuardDecl
 	Externs     []ExternDefault
 	Files       []string
-	Immutable   map[string]bool // "TypeKey.field"
+	Immutable   map[string]bool      // "TypeKey.field"
 	ImmGlobals  map[string]*SpecFile // "pkg/path.Name" -> declaring file
 	InitEnsures map[string][]*Clause // package path -> clauses established by package initialisation
 	InitSpec    map[string]*SpecFile
@@ -392,6 +395,40 @@ func (cs *Contracts) LoadFile(path, pkgPath string, fromRepo bool) error {
 			} else if cur != nil {
 				cur.Split = s
 			}
+		case "reveal":
+			var names []string
+			for _, n := range strings.Split(rest, ",") {
+				if n = strings.TrimSpace(n); n != "" {
+					names = append(names, n)
+				}
+			}
+			if curLemma != nil {
+				curLemma.Reveals = append(curLemma.Reveals, names...)
+			} else if cur != nil {
+				cur.Reveals = append(cur.Reveals, names...)
+			} else {
+				return errf("reveal outside func/lemma")
+			}
+		case "opaque":
+			// opaque pure func ...: handled like `pure func`, flagged opaque
+			w2, r2 := splitWord(rest)
+			if w2 != "pure" {
+				return errf("opaque pure func ...")
+			}
+			before := map[string]bool{}
+			for k := range cs.SpecFuncs {
+				before[k] = true
+			}
+			lines[li] = "pure " + r2
+			// re-dispatch by falling through to the pure case below
+			if err := cs.parsePureFunc(sf, "pure "+r2, path, line); err != nil {
+				return err
+			}
+			for k, f := range cs.SpecFuncs {
+				if !before[k] {
+					f.Opaque = true
+				}
+			}
 		case "trusted":
 			cur.Trusted = true
 		case "pure":
@@ -400,33 +437,9 @@ func (cs *Contracts) LoadFile(path, pkgPath string, fromRepo bool) error {
 				cur.HasMod = true
 				continue
 			}
-			// pure func name(params) type [= expr]
-			w2, r2 := splitWord(rest)
-			if w2 != "func" {
-				return errf("pure func ...")
+			if err := cs.parsePureFunc(sf, text, path, line); err != nil {
+				return err
 			}
-			def := ""
-			if i := strings.Index(r2, " = "); i >= 0 {
-				def = strings.TrimSpace(r2[i+3:])
-				r2 = r2[:i]
-			}
-			close := strings.LastIndex(r2, ")")
-			name, params, err := parseSig(r2[:close+1])
-			if err != nil {
-				return errf("%v", err)
-			}
-			s := &SpecFunc{Name: name, Params: params, Ret: strings.TrimSpace(r2[close+1:]), Src: def, Spec: sf, File: path, Line: line}
-			if def != "" {
-				e, err := parseSpecExpr(def)
-				if err != nil {
-					return errf("%v", err)
-				}
-				s.Body = e
-			}
-			if _, dup := cs.SpecFuncs[name]; dup {
-				return errf("duplicate pure func %s", name)
-			}
-			cs.SpecFuncs[name] = s
 		case "nopanic":
 			cur.NoPanic = true
 		case "fresh":
@@ -590,5 +603,40 @@ func (cs *Contracts) LoadAll(repo, modPath, assumedDir string) error {
 			return err
 		}
 	}
+	return nil
+}
+
+// parsePureFunc parses "pure func name(params) type [= expr]".
+func (cs *Contracts) parsePureFunc(sf *SpecFile, text, path string, line int) error {
+	errf := func(f string, a ...interface{}) error {
+		return fmt.Errorf("%s:%d: %s", path, line, fmt.Sprintf(f, a...))
+	}
+	_, rest := splitWord(text) // drop "pure"
+	w2, r2 := splitWord(rest)
+	if w2 != "func" {
+		return errf("pure func ...")
+	}
+	def := ""
+	if i := strings.Index(r2, " = "); i >= 0 {
+		def = strings.TrimSpace(r2[i+3:])
+		r2 = r2[:i]
+	}
+	close := strings.LastIndex(r2, ")")
+	name, params, err := parseSig(r2[:close+1])
+	if err != nil {
+		return errf("%v", err)
+	}
+	s := &SpecFunc{Name: name, Params: params, Ret: strings.TrimSpace(r2[close+1:]), Src: def, Spec: sf, File: path, Line: line}
+	if def != "" {
+		e, err := parseSpecExpr(def)
+		if err != nil {
+			return errf("%v", err)
+		}
+		s.Body = e
+	}
+	if _, dup := cs.SpecFuncs[name]; dup {
+		return errf("duplicate pure func %s", name)
+	}
+	cs.SpecFuncs[name] = s
 	return nil
 }
